@@ -509,7 +509,7 @@ int main(int argc, char** argv)
     E.assume("proof-of-work of the headers themselves is checked by the caller (net_processing CheckHeadersPoW) and is not part of this harness");
 
     // sanity gate: every outcome class the property talks about must have occurred (skipped when a violation cut executions short)
-    if (vx::rep().violations) return vx::finish();
+    if (vx::rep().violations || cut) return vx::finish(); // a deadline-cut search may legitimately lack a class
     for (int k = 1; k < NWHY; k++)
         if (!tot.why[k]) { printf("HARNESS-ERROR outcome class never reached: %s\n", WHY[k]); vx::write_evidence(); return 2; }
     if (!tot.rel_by_buffer || !tot.rel_by_work || !tot.switched_commit_passed || !tot.reached_redl) {
